@@ -53,6 +53,9 @@ func init() {
 	}
 	experiments["Xmake"] = func(p *Prog, r *Report) { makeThenAppendRule(p, r, "make", p.RepoFuncs()) }
 	experiments["Xname"] = func(p *Prog, r *Report) { siblingNameWiringRule(p, r, "name", p.RepoFuncs()) }
+	experiments["Xunlock"] = func(p *Prog, r *Report) { lockReleasedRule(p, r, "unlock", p.RepoFuncs()) }
+	experiments["Xreslice"] = func(p *Prog, r *Report) { resliceAliasRule(p, r, "reslice", p.RepoFuncs()) }
+	experiments["Xsplit"] = func(p *Prog, r *Report) { splitRestRule(p, r, "split", p.RepoFuncs()) }
 	experiments["Xnil"] = func(p *Prog, r *Report) {
 		optionalDerefAudit(p, r, "nil", p.RepoFuncs(), 1)
 	}
@@ -92,7 +95,7 @@ var anchorCache map[string][]string
 var extraAnchors = map[string][]string{
 	"C19": {"internal/app/referenceserver/impl.go", "internal/app/referenceserver/raw_response.go", "internal/app/grpcserver/impl.go"}, // the over-limit error reaches the client through the handlers and the first-request pre-read
 	"C18": {"internal/app/referenceserver/impl.go"},                                                                                    // grpcStatusTrailers: the Connect error -> gRPC status form
-	"C16": {"internal/tracer/http2.go"},                                                                                                // the HTTP/2 retry collector completes traces towards the Tracer
+	"C16": {"internal/tracer/http2.go", "internal/tracer/reader.go"},                                                                   // the HTTP/2 retry collector completes traces towards the Tracer
 	"C02": {"internal/app/referenceclient/wire_details.go"},
 	"C05": {"internal/app/connectconformance/test_trie.go"}, // the run/skip filter (filter.apply) is a trie match                                                                            // wire feedback fails a case whose result matched
 }
@@ -638,6 +641,9 @@ func anchoredGeneralRules(p *Prog, r *Report, propID string) {
 	}
 	noDataFormatStringRule(p, r, "anchored-format", func(fn *ssa.Function) bool { return inScope[fn] })
 	makeThenAppendRule(p, r, "anchored-make-append", scope)
+	lockReleasedRule(p, r, "anchored-unlock", scope)
+	resliceAliasRule(p, r, "anchored-reslice", scope)
+	splitRestRule(p, r, "anchored-split", scope)
 	siblingNameWiringRule(p, r, "anchored-name", scope)
 }
 
@@ -745,6 +751,9 @@ func crossPropertyRules(p *Prog, r *Report, propID string) {
 			extra(p, tmp)
 		}
 		for _, extra := range round4Rules[q] {
+			extra(p, tmp)
+		}
+		for _, extra := range round5Rules[q] {
 			extra(p, tmp)
 		}
 		for _, o := range tmp.Obls {
@@ -904,4 +913,213 @@ func siblingNameWiringRule(p *Prog, r *Report, key string, scope []*ssa.Function
 		})
 	}
 	r.OK(key, "R-WIRE", "-", "no struct field is initialised from a value named like a same-typed sibling field")
+}
+
+// ---------- G-UNLOCK: every acquire is released on all exits ----------
+
+// lockReleasedRule: after x.mu.Lock() / RLock(), every path to a return of the
+// same function passes x.mu.Unlock() / RUnlock() on the same access path, or
+// the registration of a deferred one (a deferred closure that unlocks counts).
+func lockReleasedRule(p *Prog, r *Report, key string, scope []*ssa.Function) {
+	n := 0
+	for _, fn := range scope {
+		eachInstr(fn, func(in ssa.Instruction) {
+			c := callCommon(in)
+			if c == nil {
+				return
+			}
+			if _, isDefer := in.(*ssa.Defer); isDefer {
+				return
+			}
+			op, k := lockOp(c)
+			if op != "lock" && op != "rlock" {
+				return
+			}
+			n++
+			r.Sites++
+			r.Func(funcName(fn))
+			isRelease := func(x ssa.Instruction) bool {
+				cc := callCommon(x)
+				if cc == nil {
+					return false
+				}
+				if o2, k2 := lockOp(cc); (o2 == "unlock" || o2 == "runlock") && k2 == k {
+					return true
+				}
+				// a deferred closure that unlocks k
+				if d, isDefer := x.(*ssa.Defer); isDefer {
+					if f := staticOrClosure(&d.Call); f != nil {
+						hit := false
+						eachInstr(f, func(y ssa.Instruction) {
+							if c3 := callCommon(y); c3 != nil {
+								if o3, k3 := lockOp(c3); (o3 == "unlock" || o3 == "runlock") && lockKind(k3) == lockKind(k) {
+									hit = true
+								}
+							}
+						})
+						return hit
+					}
+				}
+				return false
+			}
+			ok, exit := mustPass(in, isRelease)
+			pos := p.InstrPos(in)
+			if !ok && exit != nil {
+				pos = p.InstrPos(exit)
+			}
+			r.Check(ok, fmt.Sprintf("%s.%s#%s@%d", key, shortFn(fn), lockKind(k), nthLock(fn, in)), "R-LOCKED", pos, "the lock taken here is released on every path to a return",
+				fmt.Sprintf("%s acquires %s and can return (at %s) without releasing it: every later user of that lock blocks forever", shortFn(fn), k, pos))
+		})
+	}
+	r.Extra[key+"_acquires"] = n
+}
+
+func nthLock(fn *ssa.Function, target ssa.Instruction) int {
+	n, found := 0, 0
+	eachInstr(fn, func(in ssa.Instruction) {
+		if c := callCommon(in); c != nil {
+			if _, isDefer := in.(*ssa.Defer); isDefer {
+				return
+			}
+			if op, _ := lockOp(c); op == "lock" || op == "rlock" {
+				n++
+				if in == target {
+					found = n
+				}
+			}
+		}
+	})
+	return found
+}
+
+// ---------- G-RESLICE: append to a zero-length re-slice of someone else's array ----------
+
+// resliceAliasRule: `append(x[:0], …)` (or x[:0] stored and then appended to)
+// where x is a slice parameter, or a slice field of a struct that is a by-value
+// copy of a parameter: the header is a copy but the backing array still belongs
+// to the caller, so the append overwrites the caller's elements.
+func resliceAliasRule(p *Prog, r *Report, key string, scope []*ssa.Function) {
+	n := 0
+	var bad []string
+	for _, fn := range scope {
+		eachInstr(fn, func(in ssa.Instruction) {
+			sl, ok := in.(*ssa.Slice)
+			if !ok || sl.High == nil {
+				return
+			}
+			if k, isK := constInt(sl.High); !isK || k != 0 {
+				return
+			}
+			if _, isSlice := sl.X.Type().Underlying().(*types.Slice); !isSlice {
+				return
+			}
+			n++
+			// whose array is it?
+			foreign := ""
+			base := canon(sl.X)
+			if prm, isP := base.(*ssa.Parameter); isP {
+				foreign = "the slice parameter " + prm.Name()
+			}
+			if u, isU := base.(*ssa.UnOp); isU && u.Op == token.MUL {
+				if fa, isFA := u.X.(*ssa.FieldAddr); isFA {
+					if al, isAl := fa.X.(*ssa.Alloc); isAl {
+						// a local struct variable: was it initialised as a whole from a parameter / another struct?
+						for _, ref := range *al.Referrers() {
+							if st, isSt := ref.(*ssa.Store); isSt && st.Addr == ssa.Value(al) {
+								src := canon(st.Val)
+								if prm, isP := src.(*ssa.Parameter); isP {
+									foreign = "field " + fieldName(fa.X.Type(), fa.Field) + " of a by-value copy of parameter " + prm.Name()
+								}
+								if u2, isU2 := src.(*ssa.UnOp); isU2 && u2.Op == token.MUL {
+									foreign = "field " + fieldName(fa.X.Type(), fa.Field) + " of a by-value copy of " + path(u2.X)
+								}
+							}
+						}
+					}
+				}
+			}
+			if foreign == "" {
+				return
+			}
+			// is the re-slice appended to?
+			appended := false
+			seen := map[ssa.Value]bool{}
+			var walk func(v ssa.Value)
+			walk = func(v ssa.Value) {
+				if seen[v] || v.Referrers() == nil {
+					return
+				}
+				seen[v] = true
+				for _, ref := range *v.Referrers() {
+					switch x := ref.(type) {
+					case *ssa.Phi:
+						walk(x)
+					case *ssa.Call:
+						if b, isB := x.Call.Value.(*ssa.Builtin); isB && b.Name() == "append" && x.Call.Args[0] == v {
+							appended = true
+						}
+					}
+				}
+			}
+			walk(sl)
+			if appended {
+				bad = append(bad, p.InstrPos(in)+" in "+shortFn(fn)+": append to "+path(sl)+", a zero-length re-slice of "+foreign)
+			}
+		})
+	}
+	sort.Strings(bad)
+	r.Sites += n
+	r.Extra[key+"_zero_length_reslices"] = n
+	r.Check(len(bad) == 0, key, "R-NOFLOW", "-", fmt.Sprintf("%d zero-length re-slices, none of a caller-owned array is appended to", n),
+		"an append writes into a backing array that still belongs to the caller: "+strings.Join(bad, "; ")+" — elements the caller (or a later iteration) still reads are overwritten")
+}
+
+// ---------- G-SPLIT: rest dropped after an unbounded split ----------
+
+// splitRestRule: when the pieces [0] and [1] of strings.Split(s, sep) are used
+// by constant index, everything after a second separator is silently dropped;
+// SplitN(s, sep, 2) keeps it. Reported unless the number of pieces is checked
+// to be exactly 2 (or at most 2) before the use.
+func splitRestRule(p *Prog, r *Report, key string, scope []*ssa.Function) {
+	n := 0
+	var bad []string
+	for _, fn := range scope {
+		eachInstr(fn, func(in ssa.Instruction) {
+			c, ok := in.(*ssa.Call)
+			if !ok || !(isCallToNamed(&c.Call, "strings", "", "Split") || isCallToNamed(&c.Call, "bytes", "", "Split")) {
+				return
+			}
+			n++
+			idx1 := false
+			var at ssa.Instruction
+			for _, ref := range *c.Referrers() {
+				if ia, isIA := ref.(*ssa.IndexAddr); isIA {
+					if k, isK := constInt(ia.Index); isK && k == 1 {
+						idx1 = true
+						at = ia
+					}
+				}
+			}
+			if !idx1 {
+				return
+			}
+			// len(parts) == 2 / <= 2 / != 2 → return guards make it exact
+			exact := guardedBy(at, func(a Atom) bool {
+				x, isLen := lenArg(a.X)
+				k, isK := constInt(a.Y)
+				if !isLen || !isK || canon(x) != ssa.Value(c) {
+					return false
+				}
+				return (a.Op == token.EQL && k == 2) || (a.Op == token.LEQ && k == 2) || (a.Op == token.LSS && k == 3)
+			})
+			if !exact {
+				bad = append(bad, p.InstrPos(in)+" in "+shortFn(fn)+": "+path(c)+"[1] is used without the number of pieces being limited to 2")
+			}
+		})
+	}
+	sort.Strings(bad)
+	r.Sites += n
+	r.Extra[key+"_split_calls"] = n
+	r.Check(len(bad) == 0, key, "R-WIRE", "-", fmt.Sprintf("%d Split calls, none uses piece [1] of an unbounded split", n),
+		"piece [1] of an unbounded Split is used: "+strings.Join(bad, "; ")+" — everything after a second separator is dropped (SplitN(…, 2) keeps it)")
 }
